@@ -367,6 +367,10 @@ def stepBackend (st : SuiteState) (toks : List String) : SuiteState × String :=
     let (hdr, kv) := doGet c st.b (unhx k) (relRev st.b.committed r)
     (st, s!"get {hdr} {okvStr kv}")
   | ["getfault"] => ({ st with getFault := true }, "getfault ok")
+  -- a slow engine call changes no answer: `getdelay <ms>` (the next point Get), `iterslow <ms> from=<hex>` (every Next of the
+  -- iterators of one partition)
+  | ["getdelay", _] => (st, "getdelay ok")
+  | ["iterslow", _] => (st, "iterslow ok")
   | ["list", a, b, r, lim] =>
     if st.getFault then ({ st with getFault := false }, "list err other") else
     if st.scanFault && atou lim == 0 then (st, "list err other") else
